@@ -223,6 +223,8 @@ def run(tier, seed):
     envs_obj = [-3, -1, 0, 1, 2, 3]
     if tier == 'quick':
         envs_this = envs_this[::3]
+    # sequence-valued contexts: + and * do not commute on bytes, strings and lists
+    envs_this += [dict(a=b'cd', b=b'e', l=[b'x', b'y', b'z']), dict(a='cd', b='e', l=['x', 'y', 'z']), dict(a=[1, 2], b=[3], l=[[4], [5], [6]])]
     for family, envs in (('this', envs_this), ('obj_', envs_obj)):
         for t in gen_trees(rng, family, n if family == 'this' else n // 5, tier):
             src = src_of(t)
